@@ -541,6 +541,27 @@ fn family_cpio(g: &mut Gen<'_>, rng: &mut Rng, n_random: usize) {
     for a in archives {
         g.push("hostile-cpio", mk(a));
     }
+    // a "crc" (070702) member whose bytes add up to more than 2^32 (17 MB of 0xff): a reader that
+    // checks c_check must do it in wrapping or wide arithmetic (matters in overflow-checking builds)
+    {
+        let body = vec![0xffu8; 16_850_000];
+        for check in [0u32, 0xdead_beef] {
+            let mut name = b"./etc/a.conf".to_vec();
+            name.push(0);
+            let mut a = mcpio::enc_newc_header(b"070702", [1, 0o100644, 0, 0, 1, 0, body.len() as u32, 0, 0, 0, 0, name.len() as u32, check], &name);
+            while a.len() % 4 != 0 {
+                a.push(0);
+            }
+            a.extend_from_slice(&body);
+            while a.len() % 4 != 0 {
+                a.push(0);
+            }
+            a.extend(mcpio::enc_trailer());
+            let mut big = files.clone();
+            big[0].size = body.len() as u64;
+            g.push("crc-member-sum", package_with_files("cpio", &big, &a, None, false));
+        }
+    }
     // the layout rpmbuild writes for hard links: n members of one inode with nlink = n and no data,
     // all listed in the header, the last one carrying the content. Nothing here is malformed; memory
     // must stay proportional to the input, not to links x content
@@ -669,6 +690,19 @@ fn family_cross_tags(g: &mut Gen<'_>, rng: &mut Rng, n_random: usize) {
                 }
                 g.push("cross-tags:i18n-table", mk(items));
             }
+        }
+    }
+    // headers WITHOUT a name tag behind leads whose 66-byte name field has no terminator, is empty,
+    // or is not UTF-8 (whatever falls back on the lead must cope with it)
+    for name_field in [vec![b'n'; 66], vec![0u8; 66], vec![0xffu8; 66], { let mut v = vec![b'x'; 65]; v.push(0); v }] {
+        for with_name in [false, true] {
+            let mut items = vec![(tag::VERSION, Val::str("1")), (tag::RELEASE, Val::str("1")), (tag::ARCH, Val::str("noarch"))];
+            if with_name {
+                items.push((tag::NAME, Val::str("named")));
+            }
+            let mut pkg = mk(items);
+            pkg[10..76].copy_from_slice(&name_field);
+            g.push("cross-tags:lead-name", pkg);
         }
     }
     // file digests of exactly the length of their algorithm whose text is not hex: multi-byte
